@@ -34,9 +34,18 @@ def lit_sum(start, dt, m, theta=Fraction(0)):
 
 
 def expected_steps(start, end, dt):
-    """The property's reading on the float values: whole steps that fit; a grid point up to
-    rounding (1e-9 of a step) may count either way.  Returns the set of admissible counts."""
-    x = (Fraction(end) - Fraction(start)) / Fraction(dt)
+    """The property's reading on the float values: whole steps that fit, an end time that is a grid point
+    up to floating-point rounding being INCLUDED.  x = (end-start)/dt exactly (on the float values):
+      - x within the rounding of the inputs of an integer r (|x-r| <= 2^-50 (|start|+|end|)/dt + 2^-50 |x|: end is a
+        grid point up to rounding)  ->  exactly r steps;
+      - otherwise floor(x); within 1e-9 of a step below the next grid point either count is admissible.
+    Returns the set of admissible counts."""
+    fs, fe, fd = Fraction(start), Fraction(end), Fraction(dt)
+    x = (fe - fs) / fd
+    r = round(x)
+    slack = Fraction(1, 2 ** 50) * ((abs(fs) + abs(fe)) / fd + abs(x))
+    if abs(x - r) <= slack:
+        return {max(0, r)}
     n = math.floor(x)
     adm = {max(0, n)}
     if (n + 1) - x < Fraction(1, 10 ** 9):
@@ -80,12 +89,27 @@ def run(chk):
 
     # ---- (a) number of steps / time labels through the public drivers ------------------
     n_a = 150 if thorough else 50
-    for i in range(n_a):
+    # adversarial grid points, chosen without looking at the implementation: decimal literals start + m*dt whose
+    # binary64 quotient (end-start)/dt falls BELOW m (they are grid points only "up to floating-point rounding")
+    adv = []
+    for dts_ in DT_LITS:
+        for sts_ in START_LITS:
+            for m_ in (2, 3, 5, 7, 10, 11, 30, 60, 97, 120):
+                x_ = (float(lit_sum(sts_, dts_, m_)) - float(sts_)) / float(dts_)
+                if x_ < m_:
+                    adv.append((m_ - x_, (m_ - x_) / m_, dts_, sts_, m_))
+    hard = sorted(adv, reverse=True)[:3] + sorted(adv, key=lambda a_: -a_[1])[:3] + rng.sample(adv, min(len(adv), 9 if thorough else 6))
+    plan = [(a_[2], a_[3], a_[4]) for a_ in hard] + [None] * n_a
+    chk.count("adversarial_grid_points_available", len(adv))
+    for i, forced in enumerate(plan):
         dts, sts = rng.choice(DT_LITS), rng.choice(START_LITS)
-        dt, start = float(dts), float(sts)
         mmax = 1000 if thorough and rng.random() < 0.1 else 120
         m = rng.choice([0, 1, 2, 3, 3, 5, 7, 10, 11, 30, rng.randint(2, mmax)])
         kind = rng.choice(["literal", "literal", "computed", "offgrid", "random"])
+        driver = rng.choice(["tempo", "tempo", "meanfield", "pttempo"])
+        if forced:
+            (dts, sts, m), kind, driver = forced, "literal", ["tempo", "meanfield", "pttempo"][i % 3]
+        dt, start = float(dts), float(sts)
         if kind == "literal":
             end = float(lit_sum(sts, dts, m))
         elif kind == "computed":
@@ -94,7 +118,6 @@ def run(chk):
             end = float(lit_sum(sts, dts, m, Fraction(rng.randint(1, 9), 10)))
         else:
             end = start + rng.uniform(0, m + 1) * dt
-        driver = rng.choice(["tempo", "tempo", "meanfield", "pttempo"])
         adm = expected_steps(start, end, dt)
         m_info = {"driver": driver, "start": sts, "dt": dts, "end": repr(end), "kind": kind, "m": m}
         try:
